@@ -342,4 +342,58 @@ def apiRunBatch : BatchM → List ApiOp → List (Option Int)
   | b, .clone :: rest => apiRunBatch b rest
   | b, .append :: rest => apiRunBatch (b.append (.query StatementM.new)) rest
 
+/-! ### paged executions: ONE `*_with_consistency` call PER PAGE
+
+A paged execution (`Session::query_single_page` / `execute_single_page` called in a loop with the paging state the
+previous answer returned, or resumed later from a SAVED state; the pagers of pager.rs:583, 897, 1058, which call
+`query_raw_with_consistency` / `execute_raw_with_consistency` once per page) is a sequence of calls of the same
+connection-level function, each with the statement's configuration and the paging state of its page
+(connection.rs:880-912 QUERY, 1046-1148 EXECUTE). The paging state is an ARGUMENT of every call and is only copied
+into the frame (`paging_state,` in `QueryParameters`): the timestamp is chosen exactly as for a first page. -/
+
+/-- What one QUERY / EXECUTE frame of a page request carries, as far as C18 and the continuation go:
+`paging = none` is `PagingState::start()`, `some k` a state the server handed out earlier. -/
+structure PageFrame where
+  timestamp : Option Int
+  paging : Option Nat
+  deriving Repr, DecidableEq
+
+/-- The frames of ONE page call (`query_raw_with_consistency` / `execute_raw_with_consistency` with the given
+paging state): one pick (`statement.get_timestamp().or_else(generator)`), then `resends + 1` frames (EXECUTE: the
+frame re-sent after UNPREPARED reuses `..execute_frame.parameters`, paging state included; QUERY: `resends = 0`). -/
+def pageCallSt {σ : Type} (stmtTs : Option Int) (gen : Option (σ → Int × σ)) (s : σ) (paging : Option Nat)
+    (resends : Nat) : List PageFrame × σ :=
+  let p := framesSt stmtTs gen s resends
+  (p.1.map (fun t => { timestamp := t, paging := paging }), p.2)
+
+/-- A whole paged execution: the calls one after another, `pages` = per call (paging state sent, re-sends). -/
+def pagedFramesSt {σ : Type} (stmtTs : Option Int) (gen : Option (σ → Int × σ)) :
+    σ → List (Option Nat × Nat) → List PageFrame × σ
+  | s, [] => ([], s)
+  | s, (pg, resends) :: rest =>
+    let p := pageCallSt stmtTs gen s pg resends
+    let r := pagedFramesSt stmtTs gen p.2 rest
+    (p.1 ++ r.1, r.2)
+
+/-- The counting generator of the harness (`ScriptedGenerator`: hands out `next`, then `next += step`, and counts
+its calls): state = (next, calls so far). -/
+def ctrGen (step : Int) : Int × Nat → Int × (Int × Nat) := fun s => (s.1, (s.1 + step, s.2 + 1))
+
+/-- The `page` cases: executions one after another on ONE connection; per execution the statement's timestamp and
+its pages. Result per execution: its frames and how many times the generator was asked during it. -/
+def pagedExecs (gen : Option (Int × Nat → Int × (Int × Nat))) :
+    Int × Nat → List (Option Int × List (Option Nat × Nat)) → List (List PageFrame × Nat)
+  | _, [] => []
+  | s, (ts, pages) :: rest =>
+    let r := pagedFramesSt ts gen s pages
+    (r.1, r.2.2 - s.2) :: pagedExecs gen r.2 rest
+
+/-- The batch frames as a function of the WHOLE batch value, inner statements included (connection.rs:1201 reads
+`batch.get_timestamp()` only: a timestamp set on a `Statement` / `PreparedStatement` appended to a batch is NOT
+consulted - the BATCH frame has one timestamp field). -/
+def BatchStmtM.setTimestamp (st : BatchStmtM) (t : Option Int) : BatchStmtM :=
+  match st with
+  | .query s => .query (s.setTimestamp t)
+  | .prepared p => .prepared (p.setTimestamp t)
+
 end ScyllaVerif.Timestamp
